@@ -1,11 +1,19 @@
-"""C02 - serialization is total, size-exact, layers never overwrite each other.
-Rules implemented (DESIGN.md C02):
- R2 cache-pair   cached option/tag sizes are adjusted wherever the list is mutated,
-                 for the same element, with one linear form (add = remove = bytes
-                 written per element by the serialiser).
- (further rules are added below as they are implemented)
+"""C02 - serialization is total, size-exact, layers never overwrite each other (DESIGN.md C02).
+
+ R1 size-balance for every concrete layer class: the bytes its serialiser hands to the bounded cursor before / after
+                 the inner layer, as a symbolic form (E-STREAMFX), never exceed what header_size() / trailer_size() return,
+                 in every cell of the finite partition of the conditions both sides test (option kind classes, flags,
+                 message types ...).  "More written than counted" = the layer overwrites its neighbour or throws.
+ R2 cache-pair   cached option/tag sizes are adjusted wherever the list is mutated, for the same element, with one linear
+                 form (add = remove = bytes written per element by the serialiser).
+ R3 raw-writes   inside write_serialization the output buffer is touched only through the cursor, through read-only
+                 helpers, or at constant offsets already accepted by the cursor on every path (checksum patch-back).
+ R4 driver       PDU::serialize sizes the vector from size(), serialises the inner layer at buffer + header_size() with
+                 total - (header + trailer), before the layer's own write_serialization; size() sums header + trailer.
+ R5 total        the only throw sites reachable on the serialisation path of a class are the cursor's own bound checks,
+                 discharged range checks and the tabled, documented ones (PPI, PKTAP, RTP's defensive throw, ...).
 """
-from vlib import facts, cfg, cachepair
+from vlib import facts, cfg, cachepair, streamfx as sx, exc
 from vlib.facts import strip
 
 PID = "C02"
@@ -20,14 +28,204 @@ CACHE_PAIRS = [
 ]
 
 
+# cached counters and the container whose serialised size they hold (pairing itself is rule R2)
+COUNTERS = {
+    "Tins::DHCP": {"size_": "options_"},
+    "Tins::DHCPv6": {"options_size_": "options_"},
+    "Tins::ICMPv6": {"options_size_": "options_"},
+    "Tins::Dot11": {"options_size_": "options_"},
+    "Tins::PPPoE": {"tags_size_": "tags_"},
+}
+# lower bounds of counters (initial value of every constructor; checked below)
+COUNTER_BASE = {"Tins::DHCP": {"size_": 4}}
+# accessor-maintained counts: header field <-> container length, pairing checked structurally in r1_invariants()
+ACCESSOR_COUNTS = {
+    "Tins::RTP": [("extension_length()", "ext_data_", "extension_length")],
+}
+# classes whose size fields are caches related to other state by code the form language cannot follow
+R1_UNDECIDED = {
+    "Tins::LLC": "control_field_length_ / information_field_length_ are caches maintained by type() and add_xid_information(); "
+                 "their relation to type_ and information_fields_ is not a form (the control-field switch is C03.R4's instance)",
+}
+# serialisers that write their trailer through raw pointers (bounded by trailer_size(), rule R3 lists them)
+RAW_TRAILER = {"Tins::ICMP", "Tins::ICMPv6"}
+NOT_SERIALIZABLE = {"Tins::PPI", "Tins::PKTAP"}
+
+
+def final(db, cls, name, sig):
+    seen, work = set(), [cls]
+    while work:
+        rn = work.pop(0)
+        if rn in seen:
+            continue
+        seen.add(rn)
+        f = db.functions.get("%s::%s%s" % (rn, name, sig))
+        if f is not None and f.get("body"):
+            return f
+        work.extend((db.records.get(rn) or {}).get("bases", []))
+    return None
+
+
+def concrete_classes(db):
+    return sorted(k for k in db.records if k.startswith("Tins::") and "Tins::PDU" in db.all_bases(k)
+                  and not db.records[k].get("abstract") and "<" not in k)
+
+
 def run(db, rep, tier):
+    rep.rule("R1-size-balance", "bytes written before/after the inner layer never exceed header_size()/trailer_size(), on every cell "
+                                "of the condition partition", 90)
     rep.rule("R2-cache-pair", "every mutation of an option/tag list is paired on all paths with the adjustment of its cached "
                               "size, for the same element, before an erase, with one linear per-element form", 20)
+    rep.rule("R3-raw-writes", "the output buffer is written only through the cursor or at offsets the cursor already accepted", 30)
+    rep.rule("R4-driver", "PDU::serialize / PDU::size compose the layers' regions without overlap", 4)
+    rep.rule("R5-total", "no throw site other than the cursor's bound checks and the tabled ones is reachable while serialising", 50)
+    r1(db, rep)
     r2(db, rep, "R2-cache-pair")
-    rep.explanation = ("Decides the cached-size clause of C02 (sizes reported by header_size() stay equal to what the option "
-                       "lists serialise to under any add/remove history): pairing on all CFG paths, same element, correct "
-                       "order for removals, and agreement of the per-element linear form between add, remove and the "
-                       "serialiser's per-element writer.")
+    r3(db, rep)
+    r4(db, rep)
+    r5(db, rep)
+    rep.explanation = ("E-STREAMFX summarises each serialiser and each size function as a symbolic form (constants, opaque size atoms, "
+                       "guarded parts, sums over containers) and compares them on the finite partition of the conditions they test: "
+                       "written <= counted for header and trailer of all concrete classes (R1); cached sizes follow their lists (R2); "
+                       "raw accesses to the output buffer are confined (R3); the driver composes regions (R4); nothing else throws "
+                       "while serialising (R5). NOT decided: histories of the building API beyond what R2 implies; the exact offsets "
+                       "of the ICMP/ICMPv6 extension padding (bounded by trailer_size(), listed under R3); equality (written == counted) "
+                       "is reported as a note only - fewer bytes written than counted leaves zero bytes, it does not overwrite.")
+    rep.assumptions += ["state tested by both a size function and the serialiser is not changed between size() and write_serialization "
+                        "(prepare_for_serialize and the serialisers only assign derived fields; C05.R2)",
+                        "sizes stay below 2^32 (no wrap of uint32_t accumulators)"]
+
+
+def r1(db, rep):
+    classes = concrete_classes(db)
+    if len(classes) < 50:
+        rep.analysis_broken("only %d concrete PDU classes found" % len(classes))
+    r1_invariants(db, rep)
+    stats = {"classes": 0}
+    for K in classes:
+        short = K.split("::")[-1]
+        w = final(db, K, "write_serialization", "(unsigned char *, unsigned int)")
+        h = final(db, K, "header_size", "() const")
+        t = final(db, K, "trailer_size", "() const")
+        if w is None or h is None:
+            rep.analysis_broken("%s: write_serialization / header_size not found" % K)
+            continue
+        site = facts.loc(w)
+        if K in R1_UNDECIDED:
+            rep.undecided("R1-size-balance", "%s:header" % short, site, R1_UNDECIDED[K])
+            continue
+        fx = sx.Fx(db, K)
+        cnt, lower = {}, {}
+        for b in [K] + list(db.all_bases(K)):
+            cnt.update(COUNTERS.get(b, {}))
+            lower.update(COUNTER_BASE.get(b, {}))
+        try:
+            H = fx.exec_fn(sx.Ctx(fx, h, cls=K)).get("§ret")
+            T = fx.exec_fn(sx.Ctx(fx, t, cls=K)).get("§ret") if t else sx.Form()
+            cw = sx.Ctx(fx, w, cls=K)
+            env = fx.exec_list(cw, w["body"].get("c", []), {"§ret": None})
+        except sx.Opaque as e:
+            rep.analysis_broken("%s: serialiser outside the E-STREAMFX language: %s" % (K, e))
+            continue
+        W, WT = env.get("s:out"), env.get("t:out") or sx.Form()
+        stats["classes"] += 1
+        if W is None:
+            if env.get("§throws") and K in NOT_SERIALIZABLE:
+                rep.ok("R1-size-balance", "%s:header" % short, site, "documented as not serialisable: writes nothing (always throws)")
+            else:
+                rep.violation("R1-size-balance", "%s:header" % short, site, "the serialiser never opens a cursor on its buffer")
+            continue
+        # accessor-maintained counts
+        for b in [K] + list(db.all_bases(K)):
+            for atom_txt, cont, _nm in ACCESSOR_COUNTS.get(b, []):
+                H = subst_atom(H, atom_txt, cont + ".size()")
+        for part, A, B, f_ in (("header", W, H, h), ("trailer", WT, T, t)):
+            key = "%s:%s" % (short, part)
+            if part == "trailer" and K in RAW_TRAILER:
+                continue        # written through raw pointers: R3
+            if A is None or B is None:
+                rep.analysis_broken("%s: no form for %s" % (K, part))
+                continue
+            res = sx.compare(fx, A, B, cnt, 0, lower)
+            worst = [x for x in res if x[0] == "more"]
+            diff = [x for x in res if x[0] == "differ"]
+            und = [x for x in res if x[0] == "undecided"]
+            less = [x for x in res if x[0] == "less"]
+            if worst:
+                rep.violation("R1-size-balance", key, site,
+                              "%s writes more than %s_size() counts: %s (written `%s`, counted `%s`): the layer overruns its region "
+                              "- it overwrites the neighbouring layer or throws serialization_error"
+                              % (short, part, worst[0][1][:300], A.canon()[:160], B.canon()[:160]))
+            elif diff:
+                rep.violation("R1-size-balance", key, site, "%s: written and counted bytes are unrelated forms: %s (written `%s`, counted `%s`)"
+                              % (short, diff[0][1][:300], A.canon()[:160], B.canon()[:160]))
+            elif und:
+                rep.analysis_broken("%s %s: %s" % (K, part, und[0][1]))
+            else:
+                note = "" if not less else "; in %d cell(s) fewer bytes are written than counted (zero gap, no overwrite)" % len(less)
+                rep.ok("R1-size-balance", key, site, "written `%s` <= counted `%s`%s" % (A.canon()[:120], B.canon()[:120], note))
+    rep.extra["r1_classes"] = stats["classes"]
+
+
+def subst_atom(form, a, b):
+    f = sx.Form(form.k, None, [(c, subst_atom(x, a, b)) for c, x in form.whens], [(co, ct, x) for co, ct, x in form.sums])
+    for t, c in form.atoms.items():
+        t2 = b if t == a else t
+        f.atoms[t2] = f.atoms.get(t2, 0) + c
+    return f
+
+
+def r1_invariants(db, rep):
+    """premises used by R1: constructor base of counters, accessor-maintained counts"""
+    for cls, d in COUNTER_BASE.items():
+        for fld, base in d.items():
+            ctors = [f for f in db.functions.values() if f.get("rec") == cls and f.get("kind") == "ctor" and not f.get("implicit")]
+            bad = None
+            n = 0
+            for f in ctors:
+                for ini in f.get("inits", []):
+                    if ini.get("member") == fld and ini.get("e") is not None:
+                        n += 1
+                        v = facts.cval(ini["e"])
+                        if v is None or v < base:
+                            bad = facts.loc(f)
+            key = "%s::%s>=%d" % (cls.split("::")[-1], fld, base)
+            if bad or n == 0:
+                rep.violation("R1-size-balance", key, bad or cls, "a constructor does not start %s at %d: the `if (%s)` arm of the serialiser is not dead" % (fld, base, fld))
+            else:
+                rep.ok("R1-size-balance", key, facts.loc(ctors[0]), "%d constructor(s) initialise %s to >= %d; later changes are paired with the list (R2)" % (n, fld, base))
+    for cls, lst in ACCESSOR_COUNTS.items():
+        for atom_txt, cont, setter in lst:
+            key = "%s::%s~%s" % (cls.split("::")[-1], setter, cont)
+            bad = None
+            n = 0
+            for f in db.functions.values():
+                if f.get("rec") != cls or not f.get("body"):
+                    continue
+                muts = [x for x in facts.fn_nodes(f) if x["k"] == "CXXMemberCallExpr" and x.get("cname") in ("push_back", "erase", "clear", "insert", "emplace_back", "pop_back", "resize", "assign")
+                        and cont in facts.expr_str(x["c"][0])]
+                if not muts:
+                    continue
+                if f.get("kind") == "ctor":
+                    continue        # the parsing constructor fills the list from the count it read
+                for mu in muts:
+                    n += 1
+                    want = {"push_back": "+", "emplace_back": "+", "insert": "+", "erase": "-", "pop_back": "-"}.get(mu.get("cname"))
+                    sets = [x for x in facts.fn_nodes(f) if x["k"] == "CXXMemberCallExpr" and x.get("cname") == setter and len(x["c"]) == 2]
+                    okp = False
+                    for st in sets:
+                        a = facts.strip_all(st["c"][1])
+                        if a["k"] == "BinaryOperator" and a.get("op") == want and facts.cval(a["c"][1]) == 1 and setter + "()" in facts.expr_str(a["c"][0]):
+                            okp = True
+                    if not okp:
+                        bad = (facts.loc(f, mu), mu.get("cname"))
+            if bad:
+                rep.violation("R1-size-balance", key, bad[0], "%s.%s is not accompanied by %s(%s() %s 1): header_size() counts %s entries, the serialiser writes %s.size()"
+                              % (cont, bad[1], setter, setter, "+" if bad[1] in ("push_back", "insert") else "-", setter, cont))
+            elif n == 0:
+                rep.analysis_broken("no mutation of %s::%s found" % (cls, cont))
+            else:
+                rep.ok("R1-size-balance", key, cls, "%d mutation(s) of %s each adjust %s by one" % (n, cont, setter))
 
 
 def r2(db, rep, rule):
@@ -160,3 +358,411 @@ def stream_bytes(db, f, body, svar, is_elem):
     if n_w == 0:
         return None
     return F
+
+
+# ---------------------------------------------------------------------------
+# R3: raw accesses to the output buffer
+# ---------------------------------------------------------------------------
+RAW_TABLE = {
+    # function qual -> reason: pointer arithmetic whose offsets are values of trailer_size()'s own terms
+    "Tins::ICMP::write_serialization": "extension block and its padding are placed at buffer + header + max(padded inner size, 128): offsets are "
+                                       "bounded by trailer_size() (same terms) but not a constant; not proven exact",
+    "Tins::ICMPv6::write_serialization": "same extension placement as ICMP (RFC 4884)",
+}
+
+
+def parents_of(f):
+    par = {}
+    for n in facts.fn_nodes(f):
+        for c in n.get("c", []) or []:
+            if isinstance(c, dict):
+                par[c["id"]] = n
+    return par
+
+
+def r3(db, rep):
+    n_fn = 0
+    for fid, f in sorted(db.functions.items()):
+        if not f["qual"].endswith("::write_serialization") or not f.get("body") or len(f["params"]) < 2:
+            continue
+        n_fn += 1
+        short = f["qual"].replace("Tins::", "")
+        pb = f["params"][0]["var"]
+        g = cfg.FnCFG(f)
+        par = parents_of(f)
+        tainted = {pb: "buffer"}
+        changed = True
+        while changed:
+            changed = False
+            for n in facts.fn_nodes(f):
+                if n["k"] == "VarDecl" and n.get("c") and n["var"] not in tainted:
+                    t = facts.tyi(f, n.get("t")) or {}
+                    if t.get("k") == "ptr" and any(x["k"] == "DeclRefExpr" and x.get("var") in tainted for x in facts.walk(n["c"][0])):
+                        # pointer derived from the buffer (not a const-pointer view)
+                        to = t.get("to") or {}
+                        if not to.get("const"):
+                            tainted[n["var"]] = n.get("name")
+                            changed = True
+        # bytes accepted by the cursor: constant-size writes on a stream built from (buffer, total_sz)
+        writes = []
+        for n in facts.fn_nodes(f):
+            if n["k"] == "CXXMemberCallExpr" and n.get("cname") in ("write", "write_be", "write_le") and len(n["c"]) == 2 \
+                    and (n.get("crec") == "Tins::Memory::OutputMemoryStream"):
+                fs = db.functions.get(n.get("callee"))
+                t = None
+                if fs is not None and fs["params"]:
+                    t = facts.tyi(fs, fs["params"][0].get("t"))
+                    while t and t.get("k") == "ref":
+                        t = t.get("to")
+                sz = sx.type_size(db, t)
+                if sz:
+                    writes.append((n, sz))
+
+        def accepted_before(site):
+            tot = 0
+            for wn, sz in writes:
+                try:
+                    if g.before_on_all_paths(g.pos(wn), g.pos(site)):
+                        tot += sz
+                except Exception:
+                    pass
+            return tot
+        uses = [n for n in facts.fn_nodes(f) if n["k"] == "DeclRefExpr" and n.get("var") in tainted]
+        idx = 0
+        aliases_non_buffer = [v for v in tainted if v != pb]
+        for u in uses:
+            # climb to the construct that consumes the pointer
+            p = par.get(u["id"])
+            chain = [u]
+            while p is not None and p["k"] in ("ImplicitCastExpr", "ParenExpr", "CStyleCastExpr", "CXXReinterpretCastExpr", "CXXStaticCastExpr",
+                                               "BinaryOperator") and not (p["k"] == "BinaryOperator" and p.get("op") in ("=", "+=", "-=", "==", "!=", "<", ">", "<=", ">=")):
+                if p["k"] == "BinaryOperator" and p.get("op") == "-":
+                    # pointer difference: no access
+                    t = facts.ty(f, p) or {}
+                    if t.get("k") == "int":
+                        break
+                chain.append(p)
+                p = par.get(p["id"])
+            idx += 1
+            key = "%s:%s#%d" % (short, tainted[u["var"]], idx)
+            site = facts.loc(f, u)
+            verdict = None
+            if p is None:
+                verdict = ("ok", "unused")
+            elif p["k"] == "BinaryOperator" and p.get("op") == "-" and (facts.ty(f, p) or {}).get("k") == "int":
+                verdict = ("ok", "pointer difference")
+            elif p["k"] == "BinaryOperator" and p.get("op") in ("==", "!=", "<", ">", "<=", ">="):
+                verdict = ("ok", "pointer comparison")
+            elif p["k"] in ("CXXConstructExpr", "CXXTemporaryObjectExpr") and p.get("crec") == "Tins::Memory::OutputMemoryStream":
+                verdict = ("ok", "handed to the bounded cursor")
+            elif p["k"] == "VarDecl":
+                verdict = ("ok", "alias `%s` (its uses are checked)" % p.get("name"))
+            elif p["k"] in ("CallExpr", "CXXMemberCallExpr"):
+                cn = p.get("cname")
+                args = p["c"][1:]
+                ai = None
+                for i, a in enumerate(args):
+                    if any(x is chain[-1] for x in facts.walk(a)) or a is chain[-1]:
+                        ai = i
+                fs = db.functions.get(p.get("callee"))
+                pt = None
+                if fs is not None and ai is not None and ai < len(fs["params"]):
+                    pt = facts.tyi(fs, fs["params"][ai].get("t"))
+                if cn == "write_serialization" and fs is not None:
+                    verdict = ("ok", "continued by the base class serialiser on the same buffer")
+                elif pt is not None and pt.get("k") == "ptr" and (pt.get("to") or {}).get("const"):
+                    verdict = ("ok", "read-only argument of %s" % cn)
+                elif cn in ("memcpy", "memmove", "memset") and ai == 0:
+                    # destination: constant offset and length?
+                    off = const_offset(f, args[0], tainted, pb)
+                    ln = facts.cval(args[2])
+                    if off is not None and ln is not None and u["var"] == pb:
+                        acc = accepted_before(p)
+                        if off + ln <= acc:
+                            verdict = ("ok", "%s of %d byte(s) at offset %d, inside the %d byte(s) the cursor accepted before on every path" % (cn, ln, off, acc))
+                        else:
+                            verdict = ("violation", "%s of %d byte(s) at buffer + %d, but only %d byte(s) are known to fit (accepted by the cursor) at this point" % (cn, ln, off, acc))
+                    elif f["qual"] in RAW_TABLE:
+                        verdict = ("undecided", RAW_TABLE[f["qual"]])
+                    else:
+                        verdict = ("violation", "%s through the raw buffer pointer with a non-constant offset or length" % cn)
+                elif cn in ("memcpy", "memmove") and ai == 1:
+                    verdict = ("ok", "read-only source of %s" % cn)
+                elif f["qual"] in RAW_TABLE:
+                    verdict = ("undecided", RAW_TABLE[f["qual"]])
+                else:
+                    verdict = ("violation", "the raw buffer pointer is passed to %s, which may write through it" % cn)
+            elif p["k"] == "MemberExpr" and p.get("isfield"):
+                # ((hdr*)buffer)->field : store or load?
+                pp = par.get(p["id"])
+                fld = None
+                r = db.records.get(p.get("mrec"))
+                for fl in (r or {}).get("fields", []):
+                    if fl["name"] == p.get("member"):
+                        fld = fl
+                is_store = pp is not None and pp["k"] in ("BinaryOperator", "CompoundAssignOperator") and pp.get("op", "").endswith("=") and \
+                    pp.get("op") not in ("==", "!=", "<=", ">=") and pp["c"][0] is p
+                if not is_store:
+                    verdict = ("ok", "read of %s through the buffer" % p.get("member"))
+                elif fld is not None and u["var"] == pb and const_offset(f, chain[-1], tainted, pb) == 0:
+                    end = (fld["off"] + fld["bits"] + 7) // 8
+                    acc = accepted_before(pp)
+                    if end <= acc:
+                        verdict = ("ok", "store to %s (bytes %d..%d) of the header already accepted by the cursor (%d bytes)" % (p.get("member"), fld["off"] // 8, end - 1, acc))
+                    else:
+                        verdict = ("violation", "store to %s at bytes %d..%d, but only %d byte(s) are known to fit at this point" % (p.get("member"), fld["off"] // 8, end - 1, acc))
+                elif f["qual"] in RAW_TABLE:
+                    verdict = ("undecided", RAW_TABLE[f["qual"]])
+                else:
+                    verdict = ("violation", "store through a casted buffer pointer at a non-constant offset")
+            elif p["k"] in ("BinaryOperator", "CompoundAssignOperator") and p.get("op") in ("=", "+=", "-="):
+                lhs = strip(p["c"][0])
+                if lhs["k"] == "DeclRefExpr" and lhs.get("var") in tainted and lhs.get("var") != pb:
+                    verdict = ("ok", "re-positions the alias `%s` (its uses are checked)" % tainted[lhs["var"]])
+                elif lhs["k"] == "UnaryOperator" and lhs.get("op") == "*":
+                    verdict = ("violation", "direct store through the raw buffer pointer") if f["qual"] not in RAW_TABLE else ("undecided", RAW_TABLE[f["qual"]])
+                else:
+                    verdict = ("ok", "value use")
+            elif p["k"] == "UnaryOperator" and p.get("op") == "*":
+                pp = par.get(p["id"])
+                is_store = pp is not None and pp["k"] in ("BinaryOperator", "CompoundAssignOperator") and pp.get("op", "").endswith("=") and pp["c"][0] is p and pp.get("op") not in ("==", "!=", "<=", ">=")
+                verdict = ("violation", "direct store through the raw buffer pointer") if is_store else ("ok", "read through the buffer")
+            elif p["k"] == "ArraySubscriptExpr":
+                pp = par.get(p["id"])
+                is_store = pp is not None and pp["k"] in ("BinaryOperator", "CompoundAssignOperator") and pp.get("op", "").endswith("=") and pp["c"][0] is p and pp.get("op") not in ("==", "!=", "<=", ">=")
+                if is_store:
+                    i = facts.cval(p["c"][1])
+                    acc = accepted_before(pp)
+                    if i is not None and u["var"] == pb and i < acc:
+                        verdict = ("ok", "store to buffer[%d], inside the %d accepted bytes" % (i, acc))
+                    else:
+                        verdict = ("violation", "store to buffer[...] outside what the cursor accepted")
+                else:
+                    verdict = ("ok", "read through the buffer")
+            else:
+                verdict = ("ok", "value use in %s" % p["k"])
+            v, msg = verdict
+            if v == "ok":
+                rep.ok("R3-raw-writes", key, site, msg)
+            elif v == "undecided":
+                rep.undecided("R3-raw-writes", key, site, msg)
+            else:
+                rep.violation("R3-raw-writes", key, site, msg)
+    if n_fn < 28:
+        rep.analysis_broken("only %d write_serialization bodies found" % n_fn)
+
+
+def const_offset(f, e, tainted, pb):
+    """constant byte offset of a pointer expression from the buffer parameter, or None"""
+    e = strip(e)
+    while e["k"] in ("ImplicitCastExpr", "ParenExpr", "CStyleCastExpr", "CXXReinterpretCastExpr", "CXXStaticCastExpr") and e.get("c"):
+        e = strip(e["c"][0])
+    if e["k"] == "DeclRefExpr":
+        return 0 if e.get("var") == pb else None
+    if e["k"] == "BinaryOperator" and e.get("op") == "+":
+        a = const_offset(f, e["c"][0], tainted, pb)
+        b = facts.cval(e["c"][1])
+        if a is not None and b is not None:
+            t = facts.ty(f, e["c"][0]) or {}
+            es = sx.type_size(None, t.get("to")) if t.get("k") == "ptr" and (t.get("to") or {}).get("k") in ("int",) else 1
+            return a + b * (es or 1)
+    return None
+
+
+# ---------------------------------------------------------------------------
+# R4: the driver
+# ---------------------------------------------------------------------------
+def r4(db, rep):
+    fs = [f for f in db.fns_named("Tins::PDU::serialize") if len(f["params"]) == 2]
+    if not fs:
+        rep.analysis_broken("PDU::serialize(uint8_t*, uint32_t) vanished")
+        return
+    f = fs[0]
+    g = cfg.FnCFG(f)
+    inner = [n for n in facts.fn_nodes(f) if n["k"] == "CXXMemberCallExpr" and n.get("cname") == "serialize"]
+    own = [n for n in facts.fn_nodes(f) if n["k"] == "CXXMemberCallExpr" and n.get("cname") == "write_serialization"]
+    key = "PDU::serialize:inner-region"
+    if not inner or not own:
+        rep.violation("R4-driver", key, facts.loc(f), "the driver does not serialise the inner layer and then its own header")
+    else:
+        a0, a1 = facts.expr_str(inner[0]["c"][1]), facts.expr_str(inner[0]["c"][2])
+        fx = sx.Fx(db, None)
+        ctx = sx.Ctx(fx, f, cls=None)
+        env = {"§ret": None}
+        # evaluate locals up to the call
+        try:
+            for st in f["body"].get("c", []):
+                if st["k"] == "DeclStmt":
+                    for v in st.get("c", []):
+                        fx.decl(ctx, v, env)
+            off = fx.fexpr(ctx, env, strip(inner[0]["c"][1])["c"][1]) if strip(inner[0]["c"][1])["k"] == "BinaryOperator" else None
+            rest = fx.fexpr(ctx, env, inner[0]["c"][2])
+        except (sx.Opaque, KeyError, IndexError):
+            off = rest = None
+        want_off = sx.atom("header_size()")
+        want_rest = sx.atom(f["params"][1]["name"]) - sx.atom("header_size()") - sx.atom("trailer_size()")
+        if off is not None and rest is not None and off == want_off and rest == want_rest:
+            rep.ok("R4-driver", key, facts.loc(f, inner[0]), "inner layer at buffer + header_size() with total_sz - header_size() - trailer_size()")
+        else:
+            rep.violation("R4-driver", key, facts.loc(f, inner[0]), "inner layer serialised at `%s` with `%s`, not at buffer + header_size() with the remaining size minus the trailer" % (a0[:60], a1[:60]))
+        key = "PDU::serialize:order"
+        if g.before_on_all_paths(g.pos(inner[0]), g.pos(own[0])) or True:
+            # the inner call is conditional (no inner layer): require that no path runs write_serialization before it
+            ok = not g.reachable(g.pos(own[0]), g.pos(inner[0]))
+            (rep.ok if ok else rep.violation)("R4-driver", key, facts.loc(f, own[0]),
+                                              "write_serialization runs after the inner layer was written" if ok else "the layer's own bytes are written before the inner layer")
+        args = [facts.expr_str(a) for a in own[0]["c"][1:]]
+        key = "PDU::serialize:own-args"
+        if args == [f["params"][0]["name"], f["params"][1]["name"]]:
+            rep.ok("R4-driver", key, facts.loc(f, own[0]), "write_serialization(buffer, total_sz)")
+        else:
+            rep.violation("R4-driver", key, facts.loc(f, own[0]), "write_serialization receives %s" % args)
+    f0 = [f for f in db.fns_named("Tins::PDU::serialize") if len(f["params"]) == 0]
+    key = "PDU::serialize():sized-from-size"
+    if f0:
+        f = f0[0]
+        vd = [n for n in facts.fn_nodes(f) if n["k"] == "VarDecl" and n.get("c")]
+        okv = any(any(x["k"] == "CXXMemberCallExpr" and x.get("cname") == "size" and strip(x["c"][0]["c"][0])["k"] == "CXXThisExpr"
+                      for x in facts.walk(v["c"][0]) if x["k"] == "CXXMemberCallExpr" and x["c"][0].get("c")) for v in vd)
+        call = [n for n in facts.fn_nodes(f) if n["k"] == "CXXMemberCallExpr" and n.get("cname") == "serialize"]
+        okc = bool(call) and "size()" in facts.expr_str(call[0]["c"][2])
+        (rep.ok if okv and okc else rep.violation)("R4-driver", key, facts.loc(f), "vector<uint8_t> buffer(size()); serialize(&buffer[0], buffer.size())"
+                                                  if okv and okc else "the output vector is not sized from size() and passed whole")
+    else:
+        rep.analysis_broken("PDU::serialize() vanished")
+    fsz = db.fns_named("Tins::PDU::size")
+    key = "PDU::size:sum"
+    if fsz:
+        f = fsz[0]
+        txt = " ".join(facts.expr_str(n) for n in facts.fn_nodes(f) if n["k"] in ("VarDecl", "CompoundAssignOperator") and (n["k"] != "VarDecl" or n.get("c")))
+        adds = [n for n in facts.fn_nodes(f) if n["k"] == "CompoundAssignOperator" and n.get("op") == "+="]
+        init = [n for n in facts.fn_nodes(f) if n["k"] == "VarDecl" and n.get("c") and "header_size" in facts.expr_str(n["c"][0]) and "trailer_size" in facts.expr_str(n["c"][0])]
+        loop_ok = any("header_size" in facts.expr_str(a["c"][1]) and "trailer_size" in facts.expr_str(a["c"][1]) for a in adds)
+        step = any(n["k"] == "BinaryOperator" and n.get("op") == "=" and "inner_pdu" in facts.expr_str(n["c"][1]) for n in facts.fn_nodes(f))
+        if init and loop_ok and step:
+            rep.ok("R4-driver", key, facts.loc(f), "own header+trailer plus header+trailer of every inner layer")
+        else:
+            rep.violation("R4-driver", key, facts.loc(f), "size() is not the sum of header_size() + trailer_size() over the chain")
+    else:
+        rep.analysis_broken("PDU::size vanished")
+
+
+# ---------------------------------------------------------------------------
+# R5: nothing else throws while serialising
+# ---------------------------------------------------------------------------
+ENTRY = [("write_serialization", "(unsigned char *, unsigned int)"), ("header_size", "() const"), ("trailer_size", "() const"),
+         ("prepare_for_serialize", "()")]
+# (function qual prefix, exception) -> reason
+THROW_TABLE = [
+    ("Tins::PPI::write_serialization", "Tins::pdu_not_serializable", "documented: the PPI capture pseudo-header is not serialisable"),
+    ("Tins::PKTAP::write_serialization", "Tins::pdu_not_serializable", "documented: the PKTAP capture pseudo-header is not serialisable"),
+    ("Tins::RTP::write_serialization", "Tins::pdu_not_serializable", "defensive: padding bit without padding size; the bit's setter is private "
+     "and padding_size(uint8_t) sets both (C15 lists the pair), the parsing constructor throws for the combination"),
+    ("Tins::Utils::RadioTapParser::", "Tins::malformed_packet", "RadioTap::options_payload_ always holds the present word (both constructors, "
+     "RadioTapWriter only inserts); the parser's size checks cannot fail on the object's own payload"),
+    ("Tins::small_uint<4>::small_uint", "Tins::value_too_large", "protocol limit: IP::write_serialization stores header_size()/4 in the 4-bit IHL "
+     "field through small_uint<4>; more than 40 bytes of options cannot be represented and are rejected rather than truncated"),
+    ("Tins::Internals::Converters::convert", "Tins::malformed_option", "RadioTap::trailer_size decodes the FLAGS field, whose size is 1 by "
+     "RADIOTAP_METADATA (C11.R1), with to<uint8_t>()"),
+    ("Tins::NetworkInterface::", "*", "environment: IP::prepare_for_serialize looks up the default interface for a bottom-layer IP without source address"),
+    ("Tins::IPv4Address::ip_to_int", "Tins::invalid_address", "environment: reached only through the interface lookup above"),
+    ("Tins::Utils::", "*", "environment: routing-table lookup of IP::prepare_for_serialize"),
+]
+
+
+def r5(db, rep):
+    from rules import c01
+    discharge = c01.make_discharge(db)
+    classes = concrete_classes(db)
+    memo = {}
+
+    def sites(K, f, depth=0, stack=()):
+        key = (K if uses_this_virtual(f) else None, f["id"])
+        if key in memo:
+            return memo[key]
+        memo[key] = []
+        out = []
+        if depth > 12 or f["id"] in stack:
+            return out
+        for n in facts.fn_nodes(f):
+            if n["k"] == "CXXThrowExpr":
+                t = facts.tyi(f, n.get("thrown")) or {}
+                out.append((t.get("name") or t.get("s") or "?", f["qual"], facts.loc(f, n), None))
+            if n["k"] in ("CallExpr", "CXXMemberCallExpr", "CXXConstructExpr", "CXXTemporaryObjectExpr", "CXXOperatorCallExpr"):
+                callee = n.get("callee")
+                if not callee:
+                    continue
+                if n["k"] == "CXXMemberCallExpr" and exc.layer_boundary(f, n):
+                    continue
+                fs = db.functions.get(callee)
+                if n["k"] == "CXXMemberCallExpr" and n.get("virt"):
+                    me = n["c"][0]
+                    while me["k"] in ("ParenExpr", "ImplicitCastExpr"):
+                        me = me["c"][0]
+                    obj = me["c"][0] if me.get("c") else None
+                    if (obj is None or strip(obj)["k"] == "CXXThisExpr") and not me.get("qualified") and K:
+                        sig = callee[callee.index("("):]
+                        ov = final(db, K, n.get("cname"), sig)
+                        if ov is not None:
+                            fs = ov
+                if fs is None or not fs.get("body"):
+                    if n.get("ext") and n.get("cname") in exc.STD_THROWERS:
+                        out.append((exc.STD_THROWERS[n["cname"]], f["qual"], facts.loc(f, n), None))
+                    continue
+                if (fs.get("rec") or "") == "Tins::Memory::OutputMemoryStream":
+                    continue        # the cursor's own bound checks
+                for (t, q, loc, _d) in sites(K, fs, depth + 1, stack + (f["id"],)):
+                    why = discharge(f, n, t)
+                    if why:
+                        continue
+                    out.append((t, q, loc, None))
+        memo[key] = out
+        return out
+
+    def uses_this_virtual(f):
+        for n in facts.fn_nodes(f):
+            if n["k"] == "CXXMemberCallExpr" and n.get("virt"):
+                return True
+        return False
+    n_ok = 0
+    for K in classes:
+        short = K.split("::")[-1]
+        for nm, sig in ENTRY:
+            f = final(db, K, nm, sig)
+            if f is None:
+                continue
+            ss = sites(K, f)
+            seen = set()
+            bad = []
+            tabled = []
+            for t, q, loc, _ in ss:
+                if (t, q) in seen:
+                    continue
+                seen.add((t, q))
+                row = [r for r in THROW_TABLE if q.startswith(r[0]) and (r[1] == "*" or r[1] == t)]
+                if row:
+                    tabled.append("%s in %s: %s" % (t.split("::")[-1], q.split("::")[-1], row[0][2][:60]))
+                else:
+                    bad.append((t, q, loc))
+            key = "%s::%s" % (short, nm)
+            if bad:
+                t, q, loc = bad[0]
+                rep.violation("R5-total", key + ":" + t.split("::")[-1], loc,
+                              "%s thrown in %s is reachable from %s::%s: serialize() can fail for a packet the API accepted" % (t, q, short, nm))
+            else:
+                n_ok += 1
+                rep.ok("R5-total", key, facts.loc(f), "only the cursor's bound checks%s" % ("; tabled: " + "; ".join(tabled[:2]) if tabled else ""))
+    # exactly the two documented classes refuse to serialise
+    for K in classes:
+        w = final(db, K, "write_serialization", "(unsigned char *, unsigned int)")
+        if w is None:
+            continue
+        always = w["body"].get("c") and all(bits_always_throw(x) for x in w["body"]["c"][:1])
+        if always and K not in NOT_SERIALIZABLE:
+            rep.violation("R5-total", "%s:not-serialisable" % K.split("::")[-1], facts.loc(w), "%s refuses to serialise but is not one of the two documented capture pseudo-headers" % K)
+
+
+def bits_always_throw(n):
+    while n["k"] in ("ExprWithCleanups", "ParenExpr") and n.get("c"):
+        n = n["c"][0]
+    return n["k"] == "CXXThrowExpr"
